@@ -47,6 +47,7 @@ struct Report {
     for (auto& v : violations)
       if (v.msg == msg) return;
     if (violations.size() >= max_violations) return;
+    if (const char* e = getenv("VERIF_REPLAY_DIR")) replay_dir = e; // trial runs against patched sources keep their artefacts apart
     mkdir(replay_dir.c_str(), 0755);
     std::string path = replay_dir + "/" + name + "." + std::to_string(violations.size()) + ".txt";
     FILE* f = fopen(path.c_str(), "w");
